@@ -1,4 +1,5 @@
 """C14 — the information header can never change or corrupt the payload."""
+import io, contextlib
 from common import *
 
 LEVEL = 'proof'
@@ -119,6 +120,18 @@ def work(item):
                         rec['bad'].append(('payload_unchanged', 'get_basis(header=True/False) does not give the bare text / the bare text plus the header block'))
                 except Exception as e:
                     rec['bad'].append(('payload_unchanged', 'get_basis with fmt raises %s although the writer accepts the basis' % type(e).__name__))
+            # ... and with a generated auxiliary basis: the header in front of it must be the header of the dictionary the same call returns
+            if vname == 'stored' and marker is not None and rng.random() < 0.15:
+                g = rng.choice([1, 2])
+                try:
+                    with contextlib.redirect_stdout(io.StringIO()), contextlib.redirect_stderr(io.StringIO()):
+                        ad = bse.get_basis(name, version=ver, get_aux=g)
+                        want_aux = writers.write_formatted_basis_str(copy.deepcopy(ad), fmt, api._header_string(ad))
+                        got_aux = bse.get_basis(name, version=ver, fmt=fmt, get_aux=g, header=True)
+                except Exception:
+                    want_aux = got_aux = None
+                if want_aux != got_aux:
+                    rec['bad'].append(('header_states', 'get_basis(get_aux=%d, header=True): the header is not that of the auxiliary basis returned by the same call' % g))
             rec['req'] = dict(op='assemble', fmt=fmt, body=(bare[len('cartesian\n\n' if cart else 'spherical\n\n'):] if fmt == 'psi4' else bare), header=hdr, cartesian=cart)
             rec['headed'] = headed
             out['cases'].append(rec)
